@@ -247,6 +247,15 @@ func (e *Engine) evalPhis(st *State, fr *Frame, b *ssa.BasicBlock, pred *ssa.Bas
 }
 
 func (e *Engine) loopEntry(st *State, fr *Frame, li *loopInfo, pred *ssa.BasicBlock) {
+	if e.rel != nil {
+		e.evalPhis(st, fr, li.header, pred)
+		e.relRecord("loop-entry", li.ord, st.Clone(), nil, e.relPhis(fr, li))
+		e.relHavocLoop(st, fr, li)
+		fr.inLoop[li.header] = true
+		st.path = append(st.path, fmt.Sprintf("L%d.", li.ord))
+		e.runInstrs(st, fr, li.header, nil, countPhis(li.header))
+		return
+	}
 	ls := e.loopSpec(fr, li)
 	if ls == nil {
 		panic(unsupported("loop %d of %s has no invariant", li.ord, fr.fn.Name()))
@@ -296,6 +305,11 @@ func countPhis(b *ssa.BasicBlock) int {
 }
 
 func (e *Engine) loopBackEdge(st *State, fr *Frame, li *loopInfo, pred *ssa.BasicBlock) {
+	if e.rel != nil {
+		e.evalPhis(st, fr, li.header, pred)
+		e.relRecord("loop-back", li.ord, st, nil, e.relPhis(fr, li))
+		return
+	}
 	ls := e.loopSpec(fr, li)
 	e.evalPhis(st, fr, li.header, pred)
 	if ls.Unreach {
@@ -1094,12 +1108,47 @@ func (e *Engine) fieldAddr(st *State, fr *Frame, base Val, field int, rt types.T
 	}
 	off, n := e.lay.fieldRange(stt, field)
 	ft := resolve(stt.Field(field).Type(), fr.env)
+	if _, isStruct := ft.Underlying().(*types.Struct); isStruct && loc.Kind == LocObj {
+		if _, named := ft.(*types.Named); named {
+			// a struct embedded by value is an object of its own type at a sub-reference of the
+			// enclosing object: &x.f is a first-class pointer (it may be stored, compared, passed on)
+			sub := e.subRef(loc.Ref, loc.Root, loc.Off+off)
+			return Val{T: rt, L: []Term{sub}}
+		}
+	}
 	nl := *loc
 	nl.Off = loc.Off + off
 	nl.N = n
 	nl.T = ft
 	ref := base.L[0]
 	return Val{T: rt, L: []Term{ref}, P: &nl}
+}
+
+// subRef: the reference of the sub-object at leaf offset off inside object ref of type root.
+// Sub-references are negative (never confused with allocated objects or nil) and injective.
+func (e *Engine) subRef(ref Term, root types.Type, off int) Term {
+	name := fmt.Sprintf("sub_%s_%d", e.relKey(typeKey(root)), off)
+	f := e.ctx.Fun(name, []Sort{SInt}, SInt)
+	inv := e.ctx.Fun(name+"_inv", []Sort{SInt}, SInt)
+	e.ctx.Axiom(name+"_neg", fmt.Sprintf("(forall ((x Int)) (! (< (%s x) 0) :pattern ((%s x))))", f, f))
+	e.ctx.Axiom(name+"_inj", fmt.Sprintf("(forall ((x Int)) (! (= (%s (%s x)) x) :pattern ((%s x))))", inv, f, f))
+	e.subFuns[name] = true
+	// different sub-object kinds never coincide
+	var names []string
+	for n := range e.subFuns {
+		names = append(names, n)
+	}
+	sort.Strings(names)
+	for _, other := range names {
+		if other != name {
+			a, b := name, other
+			if b < a {
+				a, b = b, a
+			}
+			e.ctx.Axiom("sub_disj_"+a+"_"+b, fmt.Sprintf("(forall ((x Int) (y Int)) (! (not (= (%s x) (%s y))) :pattern ((%s x) (%s y))))", a, b, a, b))
+		}
+	}
+	return T(SInt, "(%s %s)", f, ref.S)
 }
 
 func (e *Engine) indexAddr(st *State, fr *Frame, sv Val, iv Val, rt types.Type, pos string) Val {
@@ -1307,8 +1356,23 @@ func (e *Engine) addrUsesLocal(v ssa.Value, seen map[ssa.Value]bool) bool {
 				return false
 			}
 			if callee, ok := cc.Value.(*ssa.Function); ok {
-				_ = callee
-				continue // in/out argument of an inlined or contracted callee
+				body := bodyOf(callee)
+				c := e.contractFor(callee)
+				if (c == nil || c.Inline) && len(body.Blocks) > 0 && len(seen) < 64 {
+					// inlined callee: the address must not escape through the corresponding parameter
+					esc := false
+					for i, a := range cc.Args {
+						if a == v && i < len(body.Params) {
+							if !e.addrUsesLocal(body.Params[i], seen) {
+								esc = true
+							}
+						}
+					}
+					if esc {
+						return false
+					}
+				}
+				continue // in/out argument of a contracted callee, or of an inlined one that only dereferences it
 			}
 			if _, ok := cc.Value.(*ssa.Builtin); ok {
 				continue
@@ -1316,6 +1380,14 @@ func (e *Engine) addrUsesLocal(v ssa.Value, seen map[ssa.Value]bool) bool {
 			return false
 		case *ssa.Slice:
 			// slicing a local array
+			return false
+		case *ssa.BinOp:
+			// pointer comparison
+		case *ssa.If, *ssa.Phi:
+			if _, isPhi := r.(*ssa.Phi); isPhi {
+				return false
+			}
+		case *ssa.Return:
 			return false
 		default:
 			return false
